@@ -184,7 +184,13 @@ func strGsub(L *LState) int {
 	pat := L.CheckString(2)
 	L.CheckTypes(3, LTString, LTTable, LTFunction)
 	repl := L.CheckAny(3)
-	limit := L.OptInt(4, -1)
+	limit := L.OptInt(4, len(str)+1)
+	if limit <= 0 {
+		// at most zero substitutions (pm.Find only stops at a positive limit)
+		L.SetTop(1)
+		L.Push(LNumber(0))
+		return 2
+	}
 
 	mds, err := pm.Find(pat, unsafeFastStringToReadOnlyBytes(str), 0, limit)
 	if err != nil {
